@@ -26,7 +26,7 @@ SPEC = {
     "shards": {"quick": 16, "thorough": 16},
     "min_counts": {"quick": {"evaluations": 1000, "yields_checked": 5000, "loops_checked": 1500, "removed_checked": 1000,
                              "untouched_checked": 1000, "nested_loops": 300, "later_passes": 500,
-                             "reused_populate_objects": 200, "snapshots_taken": 200, "uformat_destinations": 300, "subfibers_assigned_whole": 300, "existing_leaf_left_at_default_checked": 1000, "nodefault_rejections": 60, "destinations_built_with_initial": 100, "uformat_sources_storing_nothing": 60, "free_uformat_sources": 100}},
+                             "reused_populate_objects": 200, "snapshots_taken": 200, "uformat_destinations": 300, "subfibers_assigned_whole": 300, "existing_leaf_left_at_default_checked": 1000, "nodefault_rejections": 60, "destinations_built_with_initial": 100, "uformat_sources_storing_nothing": 60, "free_uformat_sources": 50}},
     "assumptions": [
         "pre-existing explicit defaults of z that the body leaves alone may stay or be removed (only content is compared for them)",
         "bodies that break / raise are judged on WF and RC only",
